@@ -190,6 +190,7 @@ int vk_api_begin(const char *fmt, ...) __attribute__((format(printf, 1, 2)));
 void vk_api_end(long r);
 void vk_forked_side_becomes_helper(void) __attribute__((noreturn));
 int vk_sched_point(const char *label);
+void vk_force_fault(int call, int err); /* the next parent-side call of this kind fails with err (harness-decided, not a choice point) */
 extern __thread int vk_calls_in_api; /* intercepted calls since the API call began (livelock guard) */ /* explicit scheduling point between API calls */
 
 /* ledgers */
